@@ -389,8 +389,8 @@ func decode(thread *starlark.Thread, b *starlark.Builtin, args starlark.Tuple, k
 					closed = true
 					j++ // skip '"'
 					break
-				} else if b >= utf8.RuneSelf {
-					safe = false
+				} else if b >= utf8.RuneSelf || b < ' ' {
+					safe = false // non-ASCII, or a raw control character (invalid)
 				}
 			}
 			if !closed {
